@@ -25,11 +25,13 @@ type boundedSpec struct {
 }
 
 var boundedByProp = map[string][]boundedSpec{
+	"C05": {{"c05_bounded_test.go", "TestBoundedC05"}},
 	"C11": {{"c11_bounded_test.go", "TestBoundedC11"}, {"c11path_bounded_test.go", "TestBoundedC11Path"}, {"c11params_bounded_test.go", "TestBoundedC11Params"}},
 	"C13": {{"c13_bounded_test.go", "TestBoundedC13"}},
 	"C14": {{"c14_bounded_test.go", "TestBoundedC14"}},
 	"C16": {{"c16_bounded_test.go", "TestBoundedC16"}},
 	"C17": {{"c17_bounded_test.go", "TestBoundedC17"}},
+	"C19": {{"c19_bounded_test.go", "TestBoundedC19"}},
 }
 
 var boundedTier = "quick"
@@ -90,6 +92,12 @@ func runBounded(verif, repo string, sp boundedSpec) (string, error) {
 	files := []string{"common_bounded_test.go", "fakeconn_bounded_test.go", sp.File}
 	if sp.File == "c11params_bounded_test.go" {
 		files = append(files, "c11_bounded_test.go", "c11path_bounded_test.go")
+	}
+	if sp.File == "c05_bounded_test.go" || sp.File == "c19_bounded_test.go" {
+		files = append(files, "c13_bounded_test.go") // the address type of the scripted connection
+	}
+	if sp.File == "c19_bounded_test.go" {
+		files = append(files, "c05_bounded_test.go")
 	}
 	for _, f := range files {
 		repl[filepath.Join(repo, "zz_"+f)] = filepath.Join(verif, "bounded", f)
